@@ -36,7 +36,17 @@ def main():
                 note = f"{cid} missed it at first; caught after the check was strengthened"
                 if note not in h:
                     meta["history"] = (h + "; " if h else "") + note
-            for f in glob.glob("/verif/replays/*.json") + glob.glob("/verif/replays/*.bin"):
+            # the shrunk failing case becomes a regression replay of that check (it passes on the unchanged tree)
+            keep = os.environ.get("KEEP_REPLAYS") == "1" and cid == meta.get("property")
+            for k, f in enumerate(sorted(glob.glob("/verif/replays/*.json"))):
+                if keep and k == 0:
+                    try:
+                        j = json.load(open(f)); j["seeded_change"] = name
+                        json.dump(j, open(f"/verif/replays/regress/{cid}-seeded-{name}.json", "w"), indent=1)
+                    except Exception as e:
+                        print("could not keep replay", e)
+                os.remove(f)
+            for f in glob.glob("/verif/replays/*.bin"):
                 os.remove(f)
             print(name, cid, "exit", rc, "VIOLATION" if viol else "silent", (sig[0][:140] if sig else ""))
     finally:
